@@ -1239,3 +1239,23 @@ Theorem valid_page_iff rs i asc from lim ft tu page :
   NoDup (map r_key rs) ->
   (valid_page rs i asc from lim ft tu page = true <-> is_spec_page rs i asc from lim ft tu page).
 Proof. intros N. split; [apply valid_page_sound | apply valid_page_complete]; auto. Qed.
+
+(* ---- non-vacuity: the hypotheses of the main theorems hold on concrete non-trivial data ------- *)
+Example bounds_example_desc :
+  Sorted (ordR false) [[9]; [7]; [7]; [4]; [2]] /\
+  find_bounds false [[9]; [7]; [7]; [4]; [2]] (Some [4]) (Some [9]) = Some (1, 3) /\
+  filter (win (Some [4]) (Some [9])) [[9]; [7]; [7]; [4]; [2]] = [[7]; [7]; [4]].
+Proof. split; [repeat constructor | split; vm_compute; reflexivity]. Qed.
+Example bounds_example_asc_empty_window :
+  Sorted (ordR true) [[2]; [4]; [7]] /\ find_bounds true [[2]; [4]; [7]] (Some [5]) (Some [5]) = Some (0, -1).
+Proof. split; [repeat constructor | vm_compute; reflexivity]. Qed.
+Example page_example :
+  get_many true [[1]; [2]; [3]; [4]] (map (fun k => k) [[1]; [2]; [3]; [4]]) 1 2 (Some [2]) None = Some [[3]; [4]].
+Proof. vm_compute. reflexivity. Qed.
+Example valid_page_example_ties :
+  let rs := [mkrec [97] 7 [5] 0 0 0 false false false; mkrec [98] 7 [5] 0 0 0 false false false;
+             mkrec [99] 7 [1] 0 0 0 false false false] in
+  valid_page rs (IValue 7) true 1 1 None None [[97]] = true /\
+  valid_page rs (IValue 7) true 1 1 None None [[98]] = true /\
+  valid_page rs (IValue 7) true 1 1 None None [[99]] = false.
+Proof. vm_compute. auto. Qed.
